@@ -125,10 +125,9 @@ class DB:
         DB.current = self
         self.fnsigs = {}
         self.crates = []
-        from .rename import reconcile
+        from .rename import reconcile, reconcile_fields
+        self.renamed_fields = reconcile_fields(crates)       # first: the body features used to pair renamed functions mention field names
         self.renamed = reconcile(crates)            # {key in the analysed tree: key in the pinned tree} for renamed functions
-        from .rename import reconcile_fields
-        self.renamed_fields = reconcile_fields(crates)
         for c in crates:
             pkg = c["pkg"]
             self.crates.append({"pkg": pkg, "crate": c["crate"], "types": c["crate_types"],
